@@ -13,6 +13,8 @@ import Driver.Dump
 import Driver.Oom
 import Driver.Hist
 import Driver.Res
+import Driver.Thr
+import Driver.Os
 
 def main (args : List String) : IO UInt32 := do
   let stdin ← IO.getStdin
@@ -32,4 +34,6 @@ def main (args : List String) : IO UInt32 := do
   | ["oom"] => Driver.Oom.run stdin; return 0
   | ["hist"] => Driver.Hist.run stdin; return 0
   | ["res"] => Driver.Res.run stdin; return 0
+  | ["thr"] => Driver.Thr.run stdin; return 0
+  | ["os"] => Driver.Os.run stdin; return 0
   | _ => IO.eprintln "usage: kdfdrv <stream>"; return 2
